@@ -183,14 +183,17 @@ func mergeASAACLs(ab *cmdsPair, name, prefix string) {
 	}
 	if len(appendACL) > 0 {
 		// Add ACL lines marked with [APPEND] behind last permit line.
-		// Find last permit line within entries from Netspoc.
+		// Find last permit line within entries from Netspoc,
+		// located behind prepended lines from raw.
+		// Add directly behind prepended lines, if no permit line is found.
+		n := len(prependACL)
 		i := len(acl) - 1
-		for ; i >= 0; i-- {
+		for ; i >= n; i-- {
 			if strings.Contains(acl[i].parsed, "$NAME extended permit") {
-				i++
 				break
 			}
 		}
+		i++
 		acl = append(acl[:i], append(appendACL, acl[i:]...)...)
 	}
 	// Store changed ACL.
@@ -218,14 +221,17 @@ func mergeIOSACLs(ab *cmdsPair, name, prefix string) {
 	}
 	if len(appendACL) > 0 {
 		// Add ACL lines marked with [APPEND] behind last permit line.
-		// Find last permit line within entries from Netspoc.
+		// Find last permit line within entries from Netspoc,
+		// located behind prepended lines from raw.
+		// Add directly behind prepended lines, if no permit line is found.
+		n := len(prependACL)
 		i := len(acl) - 1
-		for ; i >= 0; i-- {
+		for ; i >= n; i-- {
 			if strings.HasPrefix(acl[i].parsed, "permit ") {
-				i++
 				break
 			}
 		}
+		i++
 		acl = append(acl[:i], append(appendACL, acl[i:]...)...)
 	}
 	// Store changed ACL.
